@@ -242,4 +242,6 @@ Definition wf_doc (d : doc) : Prop :=
   In domain_name (keys (d_types d)) /\
   In (d_primary d) (keys (d_types d)) /\
   well_typed (d_types d) (Struct domain_name) (d_domain d) = true /\
-  well_typed (d_types d) (Struct (d_primary d)) (d_message d) = true.
+  (* a domain-only document carries no message part: its message is not looked at *)
+  (bytes_eqb (d_primary d) domain_name = true \/
+   well_typed (d_types d) (Struct (d_primary d)) (d_message d) = true).
